@@ -89,9 +89,12 @@ def load_findings():
 
 
 def open_switches(prop=None):
-    """names of the exclusion switches owned by open findings (optionally of one property)"""
+    """names of the exclusion switches owned by open findings; with `prop`, only those of
+    findings filed under that property (or naming it in "applies_to")"""
     out = set()
     for e in load_findings()["open"]:
+        if prop is not None and e.get("property") != prop and prop not in e.get("applies_to", []):
+            continue
         for s in e.get("switches", []):
             out.add(s)
     return out
